@@ -77,6 +77,9 @@ def blocks(tier, seed):
         out.append({"kind": "cyl", "grid": {"kind": "cyl", "shape": [4, 8], "R": 2.0, "z": [0.0, 6.4], "periodic_z": pz}, "phase": ph})
     out.append({"kind": "sum", "phase": ph})
     out.append({"kind": "dim-mismatch"})
+    # histories: droplets rendered one after the other on grids that differ in exactly one attribute, in every order, fresh process each
+    for fam in ("cart", "cyl", "polar", "sph"):
+        out.append({"kind": "gridseq", "family": fam, "phase": ph})
     return out
 
 
@@ -98,9 +101,35 @@ def centre_classes(g, R, ph):
     return out
 
 
+def seq_probe(g, ph, cls):
+    k = g["kind"]
+    if k == "cart":
+        R = 2.3 * max(g["dx"])
+        c = [o + (n // 2 + 0.31 + ph) * d for o, n, d in zip(g["origin"], g["shape"], g["dx"])]
+        spec = {"cls": cls, "grid": g, "centre": c, "R": R, "width": None if cls == "SphericalDroplet" else 0.8 * max(g["dx"]), "levels": LEVELS[0], "label": "generic"}
+        if cls == "PerturbedDroplet2D":
+            spec["amps"] = [0.2, -0.1]
+        return spec
+    if k == "cyl":
+        dz = (g["z"][1] - g["z"][0]) / g["shape"][1]
+        R = 2.1 * max(dz, g["R"] / g["shape"][0])
+        return {"cls": "DiffuseDroplet", "grid": g, "centre": [0.0, 0.0, g["z"][0] + (g["shape"][1] // 2 + 0.31 + ph) * dz], "R": R, "width": 0.7 * dz, "levels": LEVELS[0], "label": "on-axis"}
+    dr = g["R"] / g["n"]
+    return {"cls": "DiffuseDroplet", "grid": g, "centre": [0.0] * geom.dim_of(g), "R": (4.3 + ph) * dr, "width": 0.8 * dr, "levels": LEVELS[0], "label": "centred"}
+
+
 def cases(block):
     k = block["kind"]
     ph = block.get("phase", 0.0)
+    if k == "gridseq":
+        from checks import C01
+
+        V = [g for g in C01.grid_variants(block["family"]) if not g.get("r0")]
+        classes = ["SphericalDroplet", "DiffuseDroplet", "PerturbedDroplet2D"] if block["family"] == "cart" else ["DiffuseDroplet"]
+        for cls in classes:
+            for a, b in itertools.permutations(range(len(V)), 2):
+                yield {"sequence": [seq_probe(V[a], ph, cls), seq_probe(V[b], ph, cls)]}
+        return
     if k == "cart-sph":
         dim = block["dim"]
         shape, dx, org = CART[dim][block["gi"]]
@@ -254,6 +283,11 @@ def scale_of(g):
 def run_case(case, ctx):
     from droplets import Emulsion
 
+    if "sequence" in case:
+        from mcx import core
+
+        ctx.count("grid-sequences")
+        return core.run_sequence_in_fork(run_case, case["sequence"], ctx, tag={"history": True})
     k = case.get("kind")
     g = case["grid"]
     grid = geom.make_grid(g)
@@ -313,6 +347,15 @@ def run_case(case, ctx):
     sgn = 1.0 if vmax > vmin else -1.0
     beyond = (v - mid) * sgn > 0
     bad = (beyond != inside) & ~knife
+    eq_unwrapped = None
+    if g["kind"] == "cyl" and g["periodic_z"]:
+        # the recorded dependency finding is specific: z is not wrapped.  Only pictures that equal the rendering on the same
+        # grid WITHOUT periodicity are attributed to it; any other deviation is reported as a new violation.
+        g_np = dict(g, periodic_z=False)
+        d_n, rho_n, _ = reference(g_np, spec)
+        eq_unwrapped = not (((beyond != (d_n < rho_n)) & ~(np.abs(d_n - rho_n) <= 1e-9 * sc)).any())
+        if tags.get("wraps_z"):
+            tags["equals_unwrapped_render"] = bool(eq_unwrapped)
     if inside.any() and (~inside).any():
         ctx.count("covers-some-but-not-all-cells")
     ctx.check("C03.inside", not bad.any(), {"cells": np.argwhere(bad)[:5], "d": d[bad][:5], "rho": rho[bad][:5], "value": v[bad][:5], "centre": case["centre"]}, tags)
@@ -371,7 +414,11 @@ def run_case(case, ctx):
             if amb2 is not None:
                 k2 = k2 | amb2
             diffm &= ~k2
-            t2 = dict(tags, wraps_z=True)  # a whole-cell translation moves the droplet across the boundary for at least one of the two pictures
+            d_n2, rho_n2, _ = reference(dict(g, periodic_z=False), spec, c2)
+            beyond2 = (np.asarray(f2.data, float) - mid) * sgn > 0
+            eq2 = not (((beyond2 != (d_n2 < rho_n2)) & ~(np.abs(d_n2 - rho_n2) <= 1e-9 * sc)).any())
+            # a whole-cell translation moves the droplet across the boundary for at least one of the two pictures
+            t2 = dict(tags, wraps_z=True, equals_unwrapped_render=bool(eq_unwrapped and eq2))
             ctx.check("C03.roll", not diffm.any(), {"shift": m, "cells": np.argwhere(diffm)[:5]}, t2)
 
 
@@ -403,4 +450,4 @@ def run_sum(case, ctx, grid):
 
 def expected_positive(tier):
     return ["C03.finite", "C03.range", "C03.inside", "C03.indicator", "C03.monotone", "C03.profile", "C03.roll", "C03.sum", "C03.dim", "C03.shape-function",
-            "covers-some-but-not-all-cells", "sum-needs-clipping"]
+            "covers-some-but-not-all-cells", "sum-needs-clipping", "grid-sequences"]
